@@ -251,7 +251,8 @@ def curated():
     out.append(dict(instruments=[i1],
                     files={'beads1.fcs': dict(kind='beads', instrument='I1', seed=31), 'beads2.fcs': dict(kind='beads', instrument='I1', seed=32),
                            'c1.fcs': cells('I1', 33), 'c2.fcs': dict(cells('I1', 34, 'F'), timestep='0'), 'c3.fcs': cells('I1', 36, 'D'), 'c4.fcs': cells('I1', 37, 'F'),
-                           'c5.fcs': dict(cells('I1', 38), n=400)},
+                           'c5.fcs': dict(cells('I1', 38), n=400), 'c6.fcs': dict(cells('I1', 39), volt=[500, 550, 600, 777]),
+                           'c7.fcs': dict(cells('I1', 40), no_volt=True)},
                     beads=[dict(id='B1', instrument='I1', file='beads1.fcs', gate_fraction=0.3, clustering=['FL1-H'], mef={'FL1-H': lad(1)}),
                            dict(id='B2', instrument='I1', file='beads2.fcs', gate_fraction=0.3, clustering=['FL1-H', 'FL2-H'],
                                 mef={'FL1-H': lad(2), 'FL2-H': lad(3)})],
@@ -265,7 +266,11 @@ def curated():
                              # a float file whose most negative scatter events are among the discarded first/last events
                              dict(id='S7', instrument='I1', beads=None, file='c4.fcs', gate_fraction=0.4, units={'FL2-H': 'RFI'}),
                              # exactly the smallest number of events the workflow accepts (400)
-                             dict(id='S8', instrument='I1', beads=None, file='c5.fcs', gate_fraction=0.8, units={'FL1-H': 'RFI'})],
+                             dict(id='S8', instrument='I1', beads=None, file='c5.fcs', gate_fraction=0.8, units={'FL1-H': 'RFI'}),
+                             # another FL2-H voltage than the beads file's; B2 calibrates FL2-H too, but this row does not ask for it
+                             dict(id='S9', instrument='I1', beads='B2', file='c6.fcs', gate_fraction=0.5, units={'FL1-H': 'MEF', 'FL2-H': 'RFI'}),
+                             # a file that records no detector voltages, calibrated
+                             dict(id='S10', instrument='I1', beads='B1', file='c7.fcs', gate_fraction=0.5, units={'FL1-H': 'MEF'})],
                     np_seed=9, via_workbook=False, hist=True))
     # two instruments, names with blanks, different resolutions, workbook round trip
     out.append(dict(instruments=[i1, i2],
